@@ -4,12 +4,12 @@
 package sqlh
 
 import (
-	"runtime/debug"
 	"context"
 	"fmt"
 	"io"
 	"os"
 	"path/filepath"
+	"runtime/debug"
 	"sort"
 	"strings"
 
